@@ -162,6 +162,22 @@ func zzH_C14_head() {
 	zzverif.Reach("end")
 }
 
+// zzH_C14_string_header: the encode buffer's own string-header writer (used by every
+// byte-string and string field) for every length below 2^40.
+func zzH_C14_string_header() {
+	size := zzverif.U64("size")
+	zzverif.Assume(size < 1<<40)
+	w := &encbuf{sizebuf: make([]byte, 9)}
+	w.encodeStringHeader(int(size))
+	want := zzC14Header(false, size)
+	zzverif.Assert(bytes.Equal(w.str, want), "encodeStringHeader writes the Yellow-Paper string header")
+	if size >= 56 {
+		s, err := readSize(w.str[1:], byte(len(w.str)-1))
+		zzverif.Assert(err == nil && s == size, "the decoder's readSize accepts the header and returns the length")
+	}
+	zzverif.Reach("end")
+}
+
 // zzH_C14_stream: the Stream primitives over the same arbitrary input.
 func zzH_C14_stream_bytes() { zzC14Stream(0, zzC14Input(8, 16)) }
 func zzH_C14_stream_uint()  { zzC14Stream(1, zzC14Input(10, 12)) }
